@@ -363,3 +363,75 @@ seeded("k4-peek-without-consume", ["C15"], "K4", [(M, '''                ret = s
 benign("c15-sender-early-return-same", ["C15"], [(M, '''        if withcontent:
             return (code, data, content)
         return (code, data)''', '''        return (code, data, content) if withcontent else (code, data)''')])
+
+# --------------------------------------------------------------------------- C14
+seeded("r1-delete-before-put", ["C14"], "R1", [(M, '''        if not self.putscript(newname, oldscript):
+            return False
+        if active_script == oldname:
+            if not self.setactive(newname):
+                return False
+        if not self.deletescript(oldname):
+            return False
+        return True''', '''        if not self.deletescript(oldname):
+            return False
+        if not self.putscript(newname, oldscript):
+            return False
+        if active_script == oldname:
+            if not self.setactive(newname):
+                return False
+        return True''')], "the all-OK test still passes")
+seeded("r1-put-result-ignored", ["C14"], "R1", [(M, '''        if not self.putscript(newname, oldscript):
+            return False
+        if active_script''', '''        self.putscript(newname, oldscript)
+        if active_script''')])
+seeded("r1-setactive-result-ignored", ["C14"], "R1", [(M, '''            if not self.setactive(newname):
+                return False''', '''            self.setactive(newname)''')])
+seeded("r2-active-target-overwritten", ["C14"], "R2", [(M, "        if newname == active_script or newname in scripts:", "        if newname in scripts:")], "pre-fix behaviour")
+seeded("r2-no-existence-test", ["C14"], "R2", [(M, '''        if newname == active_script or newname in scripts:
+            self.errmsg = b"New script already exists"
+            return False
+''', '')])
+seeded("r3-content-stripped", ["C14"], "R3", [(M, "if not self.putscript(newname, oldscript):", "if not self.putscript(newname, oldscript.strip()):")])
+seeded("r3-none-content", ["C14"], "R3", [(M, '''        oldscript = self.getscript(oldname)
+        if oldscript is None:
+            return False
+''', '''        oldscript = self.getscript(oldname)
+''')])
+seeded("r4-delete-new", ["C14"], "R4", [(M, "if not self.deletescript(oldname):", "if not self.deletescript(newname):")])
+seeded("r4-name-normalised", ["C14"], "R4", [(M, '''        listing = self.listscripts()
+        if listing is None:''', '''        newname = newname.strip()
+        listing = self.listscripts()
+        if listing is None:''')])
+seeded("r5-unpack-none", ["C14"], "R5", [(M, '''        listing = self.listscripts()
+        if listing is None:
+            return False
+        (active_script, scripts) = listing''', '''        (active_script, scripts) = self.listscripts()''')], "pre-fix behaviour")
+seeded("r6-true-after-failed-delete", ["C14"], "R6", [(M, '''        if not self.deletescript(oldname):
+            return False
+        return True''', '''        self.deletescript(oldname)
+        return True''')])
+seeded("r7-emulation-always", ["C14"], "R7", [(M, '''        if "VERSION" in self.__capabilities:
+            code, data = self.__send_command(
+                "RENAMESCRIPT", [oldname.encode("utf-8"), newname.encode("utf-8")]
+            )
+            if code == "OK":
+                return True
+            return False
+''', '''        if "VERSION" in self.__capabilities:
+            code, data = self.__send_command(
+                "RENAMESCRIPT", [oldname.encode("utf-8"), newname.encode("utf-8")]
+            )
+            if code == "OK":
+                return True
+''')], "falls through to the emulation after a native NO")
+seeded("r7-args-swapped", ["C14"], "R7", [(M, '''"RENAMESCRIPT", [oldname.encode("utf-8"), newname.encode("utf-8")]''', '''"RENAMESCRIPT", [newname.encode("utf-8"), oldname.encode("utf-8")]''')])
+benign("c14-not-in-form", ["C14"], [(M, '''        if newname == active_script or newname in scripts:
+            self.errmsg = b"New script already exists"
+            return False
+        oldscript = self.getscript(oldname)''', '''        if not (newname != active_script and newname not in scripts):
+            self.errmsg = b"New script already exists"
+            return False
+        oldscript = self.getscript(oldname)''')])
+benign("c14-nested-success", ["C14"], [(M, '''        if not self.deletescript(oldname):
+            return False
+        return True''', '''        return self.deletescript(oldname)''')])
